@@ -75,6 +75,8 @@ var altUuidPool = []string{
 	"urn:uuid:6ba7b810-9dad-11d1-80b4-00c04fd430ca", "6BA7B810-9DAD-11D1-80B4-00C04FD430CB",
 	"{6ba7b8109dad11d180b400c04fd430cc}", "urn:uuid:6ba7b8109dad11d180b400c04fd430cd",
 	"00000000000040008000000000000001",
+	// the nil UUID and the all-ones UUID are well-formed UUIDs like any other
+	"00000000-0000-0000-0000-000000000000", "ffffffff-ffff-ffff-ffff-ffffffffffff",
 }
 
 var badIds = []V{AStr("not-a-uuid"), AStr("1234"), AStr("zzzzzzzz-zzzz-zzzz-zzzz-zzzzzzzzzzzz"), ANil(), ABool(true), AArr(),
